@@ -515,15 +515,18 @@ func defaultRedirectTrailingSlashHandler(c Context) {
 		code = http.StatusPermanentRedirect
 	}
 
-	var url string
-	if len(req.URL.RawPath) > 0 {
-		url = FixTrailingSlash(req.URL.RawPath)
-	} else {
-		url = FixTrailingSlash(req.URL.Path)
-	}
+	// The Location is built from the escaped form of the path, so that reserved characters of the last
+	// segment ('?', '#', '%', ...) stay part of the path once the client resolves it.
+	url := FixTrailingSlash(req.URL.EscapedPath())
 
 	if url[len(url)-1] == '/' {
-		localRedirect(c.Writer(), req, path.Base(url)+"/", code)
+		target := path.Base(url) + "/"
+		// Per RFC 3986 section 4.2, a relative reference whose first segment contains a colon must be
+		// preceded by a dot-segment, or it is read as a URL with a scheme.
+		if strings.IndexByte(target, ':') >= 0 {
+			target = "./" + target
+		}
+		localRedirect(c.Writer(), req, target, code)
 		return
 	}
 	localRedirect(c.Writer(), req, "../"+path.Base(url), code)
